@@ -248,11 +248,28 @@ func opGcsBuilder(_ *HState, a Event) Event {
 		var f *gcs.Filter
 		var err error
 		var keyHash chainhash.Hash
+		// the caller's transaction list sits in a larger array (spare capacity holding sentinel entries): neither the list
+		// nor what lies behind it is the builder's to rearrange
+		sentinel := &wire.MsgTx{Version: 0x5e471e1}
+		backing := make([]*wire.MsgTx, len(blk.Transactions)+3)
+		copy(backing, blk.Transactions)
+		for i := len(blk.Transactions); i < len(backing); i++ {
+			backing[i] = sentinel
+		}
+		before := append([]*wire.MsgTx{}, backing...)
+		list := backing[:len(blk.Transactions):len(backing)]
 		if mempool {
-			f, err = builder.BuildMempoolFilter(blk.Transactions)
+			f, err = builder.BuildMempoolFilter(list)
 		} else {
 			keyHash = blk.BlockHash()
+			blk.Transactions = list
 			f, err = builder.BuildBasicFilter(blk)
+		}
+		for i := range backing {
+			if backing[i] != before[i] {
+				e["sparemod"] = map[string]interface{}{"arg": "transaction list", "offset": i - len(list)}
+				break
+			}
 		}
 		if err != nil {
 			e["builderr"] = err.Error()
